@@ -104,6 +104,12 @@ def gen_specs(rng, solver, df, pen, seed, rep):
         if xc and xc.startswith("zero_group"):
             spec["zero_group"] = xc.split("@")[1]
             spec["zero_weight_on_null"] = bool(rng.random() < 0.4)       # an all-zero group that is also unpenalised
+            if rng.random() < 0.4:
+                # many more groups than the first working set and a start that is non-zero ONLY on the null group: nothing
+                # but the optimality score of that group can bring it into a working set
+                spec.update(p=int(rng.integers(30, 60)), n=int(rng.integers(25, 50)), warm="null_only", shape="n>p?",
+                            zero_weight_on_null=False)
+                spec["knobs"]["p0"] = 1
         elif xc == "single_group":
             spec["single_group"] = True
         elif xc and p > 1:
